@@ -1090,7 +1090,11 @@ class SCFGIO:
         if backedges is None:
             backedges = {}
 
-        scfg_graph = {}
+        scfg_graph: Dict[str, BasicBlock] = {}
+        # Create the graph object before the sub-graphs of its regions, so
+        # that region names are handed out outside-in as they were when the
+        # graph was built.
+        scfg = SCFG(scfg_graph, name_gen=name_gen)
         seen = set()
         # The queue must be a sorted FIFO to maintain reproducible insertion
         # order for the SCFG.
@@ -1145,7 +1149,6 @@ class SCFGIO:
             if current_name != exiting:
                 queue.extend(edges[current_name])
 
-        scfg = SCFG(scfg_graph, name_gen=name_gen)
         return scfg
 
     @staticmethod
